@@ -1,3 +1,505 @@
 package rpc
 
-// Verification harness for rpc (injected by overlay).
+// Verification harness for rpc (injected by overlay): the real rpc client on a real mpx client with a
+// scheduler-controlled connector; the server side is the real rpc server handler attached to real server conns.
+
+import (
+	"encoding/binary"
+	"fmt"
+	"strings"
+
+	"github.com/basecomplextech/baselibrary/alloc"
+	"github.com/basecomplextech/baselibrary/async"
+	"github.com/basecomplextech/baselibrary/ref"
+	"github.com/basecomplextech/baselibrary/status"
+	"github.com/basecomplextech/spec"
+	"github.com/basecomplextech/spec/mpx"
+	"github.com/basecomplextech/spec/proto/pmpx"
+	"github.com/basecomplextech/spec/proto/prpc"
+	"github.com/basecomplextech/spec/zzverif/vexp"
+	"github.com/basecomplextech/spec/zzverif/vsched"
+)
+
+// C04 — every RPC call gets its own handler run, result and status.
+
+var c04kinds = []string{"ok", "code", "panic", "oneway", "cstream", "sstream", "early"}
+
+func c04request(kind string, id int) prpc.Request {
+	w := prpc.NewRequestWriter()
+	calls := w.Calls()
+	call := calls.Add()
+	call.Method(kind)
+	input := call.Input()
+	input.Field(1).Int32(int32(id))
+	must(input.End())
+	must(call.End())
+	must(calls.End())
+	r, err := w.Build()
+	must(err)
+	return r
+}
+
+func must(err error) {
+	if err != nil {
+		panic(err)
+	}
+}
+
+func valueBytes(s string) ref.R[[]byte] {
+	buf := alloc.AcquireBuffer()
+	w := spec.NewValueWriterBuffer(buf)
+	w.String(s)
+	b, err := w.Build()
+	must(err)
+	return ref.NewFreer(b, buf)
+}
+
+type c04server struct {
+	invoked map[int]int
+	streams map[int][]string
+}
+
+// handler implements every call kind; everything it does is a function of the call id inside the request.
+func (h *c04server) handle(ctx Context, ch ServerChannel) (ref.R[[]byte], status.Status) {
+	req, st := ch.Request(ctx)
+	if !st.OK() {
+		return nil, st
+	}
+	call := req.Calls().Get(0)
+	kind := call.Method().Unwrap()
+	id := int(call.Input().Int32(1))
+	h.invoked[id]++
+	rctx := async.NoContext()
+	switch kind {
+	case "ok":
+		return valueBytes(fmt.Sprintf("res-%d", id)), status.OK
+	case "code":
+		return nil, status.New(status.Code(fmt.Sprintf("my_code_%d", id)), fmt.Sprintf("msg %d", id))
+	case "panic":
+		panic(fmt.Sprintf("handler panic %d", id))
+	case "oneway":
+		return nil, SkipResponse
+	case "cstream":
+		var got []string
+		for {
+			m, st := ch.Receive(rctx)
+			if st.Code == status.CodeEnd {
+				break
+			}
+			if !st.OK() {
+				return nil, st
+			}
+			got = append(got, string(m))
+		}
+		h.streams[id] = got
+		return valueBytes(fmt.Sprintf("res-%d:%s", id, strings.Join(got, ","))), status.OK
+	case "sstream":
+		for i := 0; i < 2; i++ {
+			if st := ch.Send(rctx, []byte(fmt.Sprintf("s%d-%d", id, i))); !st.OK() {
+				return nil, st
+			}
+		}
+		return valueBytes(fmt.Sprintf("res-%d", id)), status.OK
+	case "early":
+		// responds without reading the client's stream
+		return valueBytes(fmt.Sprintf("res-%d", id)), status.OK
+	}
+	return nil, status.Errorf("unknown kind %q", kind)
+}
+
+type c04result struct {
+	kind     string
+	id       int
+	st       status.Status
+	result   string
+	stream   []string
+	streamSt status.Status
+	done     bool
+	note     string
+}
+
+// c04call runs one call of the given kind through the public client API.
+func c04call(c Client, kind string, id int, r *c04result) {
+	defer func() { r.done = true }()
+	ctx := async.NoContext()
+	req := c04request(kind, id)
+	switch kind {
+	case "ok", "code", "panic":
+		res, st := c.Request(ctx, req)
+		r.st = st
+		if st.OK() {
+			r.result = res.Unwrap().String().Clone()
+			res.Release()
+		}
+	case "oneway":
+		r.st = c.RequestOneway(ctx, req)
+	case "cstream", "early":
+		ch, st := c.Channel(ctx, req)
+		if !st.OK() {
+			r.st = st
+			return
+		}
+		defer ch.Free()
+		for i := 0; i < 2; i++ {
+			if st := ch.Send(ctx, []byte(fmt.Sprintf("c%d-%d", id, i))); !st.OK() {
+				r.note = "send:" + string(st.Code)
+				break
+			}
+		}
+		if st := ch.SendEnd(ctx); !st.OK() {
+			r.note += " end:" + string(st.Code)
+		}
+		res, st := ch.Response(ctx)
+		r.st = st
+		if st.OK() {
+			r.result = res.String().Clone()
+		}
+	case "sstream":
+		ch, st := c.Channel(ctx, req)
+		if !st.OK() {
+			r.st = st
+			return
+		}
+		defer ch.Free()
+		for {
+			m, st := ch.Receive(ctx)
+			if !st.OK() {
+				r.streamSt = st
+				break
+			}
+			r.stream = append(r.stream, string(m))
+		}
+		res, st := ch.Response(ctx)
+		r.st = st
+		if st.OK() {
+			r.result = res.String().Clone()
+		}
+	}
+}
+
+// c04check compares what the caller observed with the sequential specification of the call.
+func c04check(x *vexp.Ctx, r *c04result, h *c04server, faulty bool) {
+	name := fmt.Sprintf("%s#%d", r.kind, r.id)
+	if n := h.invoked[r.id]; n > 1 {
+		x.Fail("handler invoked more than once for one request", "%s: %d invocations", name, n)
+	}
+	if faulty && !r.st.OK() {
+		return // a lost connection may fail any call; it must only never turn into a wrong success
+	}
+	if h.invoked[r.id] == 0 && r.st.OK() && r.kind != "oneway" {
+		x.Fail("call reports OK although the handler never ran", "%s", name)
+	}
+	switch r.kind {
+	case "ok", "early":
+		if !r.st.OK() || r.result != fmt.Sprintf("res-%d", r.id) {
+			x.Fail("unary call: wrong result or status", "%s: status=%v result=%q want res-%d", name, r.st, r.result, r.id)
+		}
+	case "code":
+		if string(r.st.Code) != fmt.Sprintf("my_code_%d", r.id) || r.st.Message != fmt.Sprintf("msg %d", r.id) {
+			x.Fail("application status code/message not propagated to its caller", "%s: got code=%q message=%q", name, r.st.Code, r.st.Message)
+		}
+	case "panic":
+		if r.st.OK() {
+			x.Fail("handler panic surfaces as OK", "%s: result=%q", name, r.result)
+		}
+	case "oneway":
+		if !r.st.OK() && !faulty {
+			x.Fail("oneway request fails on a healthy connection", "%s: %v", name, r.st)
+		}
+	case "cstream":
+		want := fmt.Sprintf("res-%d:c%d-0,c%d-1", r.id, r.id, r.id)
+		if !r.st.OK() || r.result != want {
+			x.Fail("client-streaming call: stream not delivered in order before the end marker", "%s: status=%v result=%q want %q note=%s", name, r.st, r.result, want, r.note)
+		}
+	case "sstream":
+		want := fmt.Sprintf("[s%d-0 s%d-1]", r.id, r.id)
+		if !r.st.OK() || r.result != fmt.Sprintf("res-%d", r.id) || fmt.Sprint(r.stream) != want || r.streamSt.Code != status.CodeEnd {
+			x.Fail("server-streaming call: messages/response wrong or out of order", "%s: status=%v result=%q stream=%v streamEnd=%v", name, r.st, r.result, r.stream, r.streamSt.Code)
+		}
+	}
+}
+
+// countResponses parses the mpx frames a server connection wrote and counts rpc response messages.
+func countResponses(b []byte) (n int) {
+	i := len(mpx.ProtocolLine)
+	if len(b) < i {
+		return 0
+	}
+	for i+4 <= len(b) {
+		sz := int(binary.BigEndian.Uint32(b[i:]))
+		i += 4
+		if i+sz > len(b) {
+			break
+		}
+		m, _, err := pmpx.ParseMessage(b[i : i+sz])
+		i += sz
+		if err != nil {
+			continue
+		}
+		var datas [][]byte
+		collect := func(m pmpx.Message) {
+			switch m.Code() {
+			case pmpx.Code_ChannelOpen:
+				datas = append(datas, m.ChannelOpen().Data())
+			case pmpx.Code_ChannelData:
+				datas = append(datas, m.ChannelData().Data())
+			case pmpx.Code_ChannelClose:
+				datas = append(datas, m.ChannelClose().Data())
+			}
+		}
+		if m.Code() == pmpx.Code_Batch {
+			l := m.Batch().List()
+			for k := 0; k < l.Len(); k++ {
+				collect(l.Get(k))
+			}
+		} else {
+			collect(m)
+		}
+		for _, d := range datas {
+			if len(d) == 0 {
+				continue
+			}
+			if pm, _, err := prpc.ParseMessage(d); err == nil && pm.Type() == prpc.MessageType_Response {
+				n++
+			}
+		}
+	}
+	return n
+}
+
+func init() {
+	// S1: pairs (quick) / triples (thorough) of concurrent calls of every kind over shared connections.
+	vexp.Register(&vexp.Scenario{
+		Name: "c04.S1.concurrent-calls", Prop: "C04", MaxSteps: 100000,
+		Bounds: func(thorough bool) vexp.Bounds {
+			if thorough {
+				return vexp.Bounds{P: 1, F: 1, E: 1}
+			}
+			return vexp.Bounds{P: 1, F: 0, E: 0}
+		},
+		Configs: func(thorough bool) []map[string]int {
+			var out []map[string]int
+			n := len(c04kinds)
+			for a := 0; a < n; a++ {
+				for b := 0; b < n; b++ {
+					if thorough {
+						for _, c := range []int{0, 1, 4, 5} {
+							out = append(out, map[string]int{"k0": a, "k1": b, "k2": c, "maxconns": 1 + (a+b)%2, "target": 1})
+						}
+					} else {
+						out = append(out, map[string]int{"k0": a, "k1": b, "k2": -1, "maxconns": 1 + (a+b)%2, "target": 1})
+					}
+				}
+			}
+			return out
+		},
+		Doc: "real rpc client over a real mpx client (scheduler-controlled connector), real rpc server handler: every ordered pair (thorough: triples) of concurrent calls from {unary ok, application code+message, handler panic, oneway, client-streaming, server-streaming, early response}, MaxConns 1 or 2; every caller is checked against the sequential specification of its own call id; rpc response frames on the wire are counted",
+		Body: func(x *vexp.Ctx) {
+			h := &c04server{invoked: map[int]int{}, streams: map[int][]string{}}
+			srv := &server{handler: HandleFunc(h.handle)}
+			vc := mpx.VNewClient(x, srv, false, nil)
+			srv.logger = vc.Logger()
+			vc.RecordNext()
+			c := newClient(vc.Client, vc.Logger())
+			var rs []*c04result
+			for i, k := range []string{"k0", "k1", "k2"} {
+				if ki := x.P(k, -1); ki >= 0 {
+					rs = append(rs, &c04result{kind: c04kinds[ki], id: 10 + i})
+				}
+			}
+			for _, r := range rs {
+				r := r
+				vsched.GoNamed("call-"+r.kind, func() { c04call(c, r.kind, r.id, r) })
+			}
+			vsched.Join("calls returned", func() bool {
+				for _, r := range rs {
+					if !r.done {
+						return false
+					}
+				}
+				return true
+			})
+			vsched.WaitIdle("quiesce")
+			wantResp := 0
+			for _, r := range rs {
+				c04check(x, r, h, false)
+				if r.kind != "oneway" {
+					wantResp++
+				}
+				if h.invoked[r.id] != 1 {
+					x.Fail("handler not invoked exactly once for a delivered request", "%s#%d: %d invocations", r.kind, r.id, h.invoked[r.id])
+				}
+			}
+			// second round on recycled call states (pools are LIFO): a call after the concurrent ones
+			late := &c04result{kind: rs[0].kind, id: 30}
+			vsched.GoNamed("late-call", func() { c04call(c, late.kind, late.id, late) })
+			vsched.Join("late call returned", func() bool { return late.done })
+			vsched.WaitIdle("quiesce")
+			c04check(x, late, h, false)
+			if late.kind != "oneway" {
+				wantResp++
+			}
+			got := 0
+			for i := 0; i < vc.ServerConns(); i++ {
+				got += countResponses(vc.Written(i, 1))
+			}
+			if vc.ServerConns() == 1 && got != wantResp {
+				x.Fail("number of rpc response frames on the wire differs from the number of non-oneway calls", "responses=%d want %d (a oneway request must yield no response)", got, wantResp)
+			}
+			c.Close()
+			vsched.WaitIdle("quiesce")
+			x.Outcome = fmt.Sprintf("conns=%d responses=%d", vc.ServerConns(), got)
+		},
+	})
+
+	// S2: a scripted server answers with malformed replies: never OK.
+	vexp.Register(&vexp.Scenario{
+		Name: "c04.S2.malformed-reply", Prop: "C04", MaxSteps: 100000,
+		Bounds: func(thorough bool) vexp.Bounds { return vexp.Bounds{P: 1, F: 1, E: 0} },
+		Configs: func(thorough bool) []map[string]int {
+			var out []map[string]int
+			for r := 0; r < 7; r++ {
+				for k := 0; k < 2; k++ {
+					out = append(out, map[string]int{"reply": r, "kind": k})
+				}
+			}
+			return out
+		},
+		Doc: "mpx-level scripted server replies to a unary / server-streaming call with: garbage bytes, an rpc request message, a stream message then close without response, an empty close, a response without status, a parser-hostile payload, a truncated response: the caller must see a non-OK status, never OK and never a panic",
+		Body: func(x *vexp.Ctx) {
+			reply := x.P("reply", 0)
+			handler := mpx.HandleFunc(func(ctx mpx.Context, ch mpx.Channel) status.Status {
+				rctx := async.NoContext()
+				if _, st := ch.Receive(rctx); !st.OK() {
+					return st
+				}
+				switch reply {
+				case 0:
+					return ch.SendAndClose(rctx, []byte{0xff, 0xfe, 0xfd, 0x01})
+				case 1:
+					b := alloc.NewBuffer()
+					m, _ := newBuilder().buildRequest(b, c04request("ok", 1))
+					return ch.SendAndClose(rctx, m.Unwrap().Raw())
+				case 2:
+					b := alloc.NewBuffer()
+					m, _ := newBuilder().buildMessage(b, []byte("x"))
+					ch.Send(rctx, m.Unwrap().Raw())
+					return status.OK // handler exit closes the channel without a response
+				case 3:
+					return ch.SendAndClose(rctx, nil)
+				case 4:
+					w := prpc.NewMessageWriter()
+					w.Type(prpc.MessageType_Response)
+					m, _ := w.Build()
+					return ch.SendAndClose(rctx, m.Unwrap().Raw())
+				case 5:
+					return ch.SendAndClose(rctx, []byte{0xc8, 0x5a})
+				default:
+					b := alloc.NewBuffer()
+					m, _ := newBuilder().buildResponse(b, nil, status.OK)
+					raw := m.Unwrap().Raw()
+					return ch.SendAndClose(rctx, raw[:len(raw)/2])
+				}
+			})
+			vc := mpx.VNewClient(x, handler, false, nil)
+			c := newClient(vc.Client, vc.Logger())
+			r := &c04result{kind: []string{"ok", "sstream"}[x.P("kind", 0)], id: 7}
+			panicked := ""
+			done := false
+			vsched.GoNamed("call", func() {
+				defer func() {
+					if e := recover(); e != nil {
+						panicked = fmt.Sprint(e)
+					}
+					done = true
+				}()
+				c04call(c, r.kind, r.id, r)
+			})
+			vsched.Join("call returned", func() bool { return done })
+			if panicked != "" {
+				x.Fail("client panics on a malformed reply", "reply variant %d: %s", reply, panicked)
+			}
+			if r.st.OK() && reply != 4 {
+				x.Fail("malformed reply surfaces as OK", "reply variant %d kind %s: result=%q", reply, r.kind, r.result)
+			}
+			if reply == 4 && r.st.OK() && r.result != "" {
+				x.Fail("response without status/result yields data", "result=%q", r.result)
+			}
+			c.Close()
+			vsched.WaitIdle("quiesce")
+			x.Outcome = fmt.Sprintf("reply=%d st=%s", reply, r.st.Code)
+		},
+	})
+
+	// S3: connection cut at every byte offset while a unary and a server-streaming call are in flight.
+	vexp.Register(&vexp.Scenario{
+		Name: "c04.S3.connection-lost-mid-call", Prop: "C04", MaxSteps: 200000,
+		Bounds: func(thorough bool) vexp.Bounds {
+			if thorough {
+				return vexp.Bounds{P: 1, F: 0, E: 0}
+			}
+			return vexp.Bounds{P: 0, F: 1, E: 0}
+		},
+		Configs: func(thorough bool) []map[string]int {
+			sc := vexp.Get("c04.S3.connection-lost-mid-call")
+			vexp.RunOnce(sc, map[string]int{"dir": -1}, nil, false)
+			var out []map[string]int
+			for dir := 0; dir < 2; dir++ {
+				for k := 0; k < c04lens[dir]; k++ {
+					out = append(out, map[string]int{"dir": dir, "k": k, "mode": k % 2})
+				}
+			}
+			return out
+		},
+		Doc: "unary + server-streaming call in flight on one connection; the transport is cut / half-closed after EVERY byte offset of either direction: every call returns; a call that reports OK carries exactly the data its own handler invocation produced; nothing panics",
+		Body: func(x *vexp.Ctx) {
+			h := &c04server{invoked: map[int]int{}, streams: map[int][]string{}}
+			srv := &server{handler: HandleFunc(h.handle)}
+			x.Params["maxconns"] = 1
+			vc := mpx.VNewClient(x, srv, false, nil)
+			srv.logger = vc.Logger()
+			dir := x.P("dir", -1)
+			if dir < 0 {
+				vc.RecordNext()
+			} else {
+				vc.FaultAfter(dir, int64(x.P("k", 0)), x.P("mode", 0))
+			}
+			c := newClient(vc.Client, vc.Logger())
+			rs := []*c04result{{kind: "ok", id: 21}, {kind: "sstream", id: 22}}
+			panicked := ""
+			for _, r := range rs {
+				r := r
+				vsched.GoNamed("call-"+r.kind, func() {
+					defer func() {
+						if e := recover(); e != nil {
+							panicked = fmt.Sprint(e)
+							r.done = true
+						}
+					}()
+					c04call(c, r.kind, r.id, r)
+				})
+			}
+			vsched.Join("calls returned", func() bool { return rs[0].done && rs[1].done })
+			vsched.WaitIdle("quiesce")
+			if dir < 0 {
+				c04lens = [2]int{len(vc.Written(0, 0)), len(vc.Written(0, 1))}
+			}
+			if panicked != "" {
+				x.Fail("client call panics when the connection is lost", "%s", panicked)
+			}
+			for _, r := range rs {
+				c04check(x, r, h, dir >= 0)
+			}
+			for _, e := range vc.Errors() {
+				if strings.Contains(e, "panic") {
+					x.Fail("panic logged: "+e[:min(len(e), 60)], "%s", e)
+				}
+			}
+			c.Close()
+			vsched.WaitIdle("quiesce")
+			x.Outcome = fmt.Sprintf("ok=%v/%v", rs[0].st.OK(), rs[1].st.OK())
+		},
+	})
+}
+
+var c04lens [2]int
